@@ -380,7 +380,7 @@ def validate_traces(chk, tag, runs, batch=250):
 
 
 def code_to_spec(chk, tier):
-    n = 600 if tier == "quick" else 4000
+    n = 400 if tier == "quick" else 3000
     reasons = REASONS_Q if tier == "quick" else REASONS_T
     seeds = [chk.seed * 1000003 + i for i in range(n)]
     chunks = [(seeds[i:i + 50], chk.scratch, reasons) for i in range(0, n, 50)]
@@ -619,7 +619,7 @@ def run(tier):
     t3 = time.time()
     code_to_spec(chk, tier)
     t4 = time.time()
-    contract(chk, cases, 2500 if tier == "quick" else 20000)
+    contract(chk, cases, 1500 if tier == "quick" else 8000)
     shutdown_while_alive(chk)
     t5 = time.time()
     chk.cov["phase_wall_s"] = dict(model=round(t1 - t0, 1), emit=round(t2 - t1, 1), replay=round(t3 - t2, 1), traces=round(t4 - t3, 1), contract=round(t5 - t4, 1))
